@@ -57,7 +57,7 @@ func evalCase(sec *ev.Section, c *caseIn, o *outcome) {
 	for _, v := range vs {
 		R.Violation(v.Key, map[string]interface{}{
 			"case": c, "expected": v.Expect, "observed": v.Got, "log_calls": o.Calls,
-			"how_to_replay": "VERIF_REPLAY=<this file> /verif/vcheck C10 quick --replay <this file>",
+			"how_to_replay": "/verif/vcheck C10 quick --replay <absolute path of this file>",
 		})
 	}
 	if nontrivial {
@@ -78,18 +78,10 @@ func bubble(t *testing.T, base, n int, disable, follower bool, body func(s *sim)
 
 // healthVectors enumerates the metric pictures for the single-pin space:
 // every survivor valid or expired, the failed peer's own informer metric
-// still valid or gone. For n >= 7 only the vectors with at most two unhealthy
-// or at most two healthy survivors are kept (stated in the bounds).
+// still valid or gone (2^n vectors).
 func healthVectors(n, f int) []string {
 	var out []string
 	for m := 0; m < 1<<uint(n); m++ {
-		surv := m &^ (1 << uint(f))
-		if n >= 7 {
-			bad := bits.OnesCount(uint(surv))
-			if bad > 2 && (n-1-bad) > 2 {
-				continue
-			}
-		}
 		b := make([]byte, n)
 		for i := 0; i < n; i++ {
 			switch {
@@ -163,8 +155,8 @@ func runSingle(t *testing.T, unit string, n, f int) {
 	sec.Bounds["peers"] = n
 	sec.Bounds["failed_peer_index"] = f
 	sec.Bounds["pinset"] = "every single pin: allocations = every set of 1..3 of the n peers x (min,max) in 1<=min<=max<=3 with |alloc|<=max, plus pin-everywhere"
-	sec.Bounds["metrics"] = "every survivor valid|expired x failed peer's informer metric valid|absent" + map[bool]string{true: " (n>=7: at most 2 unhealthy or at most 2 healthy survivors)", false: ""}[n >= 7]
-	sec.Bounds["config"] = "repinning enabled & not follower: all triggers {ping, ping twice, ping on private snapshots, non-ping alert, PeerRemove at first survivor, PeerRemove at the removed peer}; follower: same triggers, 2 metric pictures; repinning disabled: non-ping alert and PeerRemove (ping alerts: unit disabled-ping)"
+	sec.Bounds["metrics"] = "every survivor valid|expired x failed peer's informer metric valid|absent (all 2^n pictures)"
+	sec.Bounds["config"] = "repinning enabled & not follower: all triggers {ping, ping twice, ping on private snapshots, non-ping alert, PeerRemove at first survivor, PeerRemove at the removed peer}; follower: same triggers, 3 metric pictures (all valid, none valid, first survivor expired); repinning disabled: non-ping alert and PeerRemove, same 3 pictures (ping alerts with repinning disabled: unit disabled-ping)"
 	surv := survivors(n, f)
 	pins := singlePins(n)
 	hv := healthVectors(n, f)
@@ -269,12 +261,19 @@ func bindUpdate(set []pinSpec) []pinSpec {
 	return out
 }
 
-// subsetsUpTo3 enumerates all subsets of 1..3 elements of ks (by index).
+// subsetsUpTo3 enumerates all subsets of 1..3 elements of 0..k-1, smallest
+// sets first (so that the first counterexample recorded for a key is small).
 func subsetsUpTo3(k int, f func(idx []int)) {
 	for a := 0; a < k; a++ {
 		f([]int{a})
+	}
+	for a := 0; a < k; a++ {
 		for b := a + 1; b < k; b++ {
 			f([]int{a, b})
+		}
+	}
+	for a := 0; a < k; a++ {
+		for b := a + 1; b < k; b++ {
 			for c := b + 1; c < k; c++ {
 				f([]int{a, b, c})
 			}
